@@ -314,8 +314,11 @@ func (e *Enc) oblige(kind, label string, pc, goal string, props []string, pos to
 		o.Pos = e.g.fset.Position(pos)
 	}
 	e.obls = append(e.obls, o)
-	// after the check, the fact may be assumed by what follows (first failure semantics)
-	e.assume(pc, goal)
+	// after the check, the fact may be assumed by what follows (first failure semantics);
+	// reachability probes are never assumed
+	if kind != "vacuity" {
+		e.assume(pc, goal)
+	}
 	return o
 }
 
